@@ -259,11 +259,11 @@ func ruleT1(c *Ctx) {
 		}
 		ast.Inspect(ds, func(y ast.Node) bool {
 			if call, ok := y.(*ast.CallExpr); ok && callName(info, call) == "ft.WhenCall" && len(call.Args) == 2 {
-				if strings.Contains(normGuard(exprStr(call.Args[0])), "err!=nil") && strings.HasSuffix(exprStr(call.Args[1]), "doClose") {
+				if errNilCmp(info, call.Args[0], token.NEQ) && strings.HasSuffix(exprStr(call.Args[1]), "doClose") {
 					closes = true
 				}
 			}
-			if ifs, ok := y.(*ast.IfStmt); ok && strings.Contains(normGuard(exprStr(ifs.Cond)), "err!=nil") && strings.Contains(exprStr0(ifs.Body), "doClose") {
+			if ifs, ok := y.(*ast.IfStmt); ok && errNilCmp(info, ifs.Cond, token.NEQ) && strings.Contains(exprStr0(ifs.Body), "doClose") {
 				closes = true
 			}
 			return true
@@ -578,7 +578,7 @@ func ruleX4(c *Ctx) {
 		})
 		ok := false
 		walkNoLit(f.Body, func(x ast.Node) bool {
-			if ifs, isIf := x.(*ast.IfStmt); isIf && normGuard(exprStr(ifs.Cond)) == "err==nil" && containsReturn(ifs.Body) && push != nil && fl.Dominates(ifs.Cond, push) {
+			if ifs, isIf := x.(*ast.IfStmt); isIf && errNilCmp(f.Info(), ifs.Cond, token.EQL) && containsReturn(ifs.Body) && push != nil && fl.Dominates(ifs.Cond, push) {
 				ok = true
 			}
 			return true
